@@ -27,6 +27,7 @@ func runC15(w *World, tier string) (bool, interface{}) {
 	}
 	c := NewCluster(w, n)
 	c.L.Faults.PermuteResults = true
+	c.L.Faults.BoardDownAtSubmit = w.Tape.Bool(1, 2, "boardOutages") // also while a node posts its own participation confirmation
 	members := AllMembers(n)
 	judged := 0
 	var kinds []string
